@@ -11513,6 +11513,20 @@ int cg_boco_gridlocation_write(int fn, int B, int Z,
         return CG_ERROR;
     }
 #endif
+     /* in MODIFY mode an existing GridLocation_t node is replaced */
+    if (cg->mode == CG_MODE_MODIFY) {
+        int nnod;
+        double *id;
+        if (cgi_get_nodes(boco->id, "GridLocation_t", &nnod, &id))
+            return CG_ERROR;
+        if (nnod > 0) {
+            if (cgi_delete_node(boco->id, id[0])) {
+                CGNS_FREE(id);
+                return CG_ERROR;
+            }
+            CGNS_FREE(id);
+        }
+    }
     boco->location = location;
 
     dim_vals = (cgsize_t)strlen(GridLocationName[location]);
